@@ -64,6 +64,9 @@ def check_C14(ctx):
     for cfg, F in ctx.configs(["K1", "K2"]):
         # a refused send releases what it took: no endpoint of the message survives an error exit of the platform send
         fd.rule_fd_path(ctx, cfg, F, fd.build_model(F))
+        # the descriptor list of a message starts empty in the call that sends it (the interval analysis starts at Vec::new): a list kept across calls would carry
+        # the numbers of a refused message into the next one
+        send.rule_fd_bound(ctx, cfg, F)
     ctx.assume("bincode::serialize_into / bincode::deserialize are the only entry points through which user Serialize/Deserialize code runs inside the bracket")
     ctx.assume("unwind paths excluded: a panicking Serialize impl is outside the rule")
 
@@ -253,6 +256,9 @@ def check_C10(ctx):
         ctx.rule("MODE-TABLE").floor("entry_points[%s]" % cfg, 8, cfg)
         recv.rule_err_map(ctx, cfg, F)
         ctx.rule("ERR-MAP").floor("conversions[%s]" % cfg, 2, cfg)
+    for cfg, F in ctx.configs(["K3"]):
+        # a polling receive on a finished channel answers Disconnected: the in-process library keeps no sender of a channel it handed out (the one-shot registry entry goes with accept)
+        oss.rule_oss_own(ctx, cfg, F, "inprocess")
     ctx.assume("poll(2)/recvmsg(2) semantics; crossbeam recv_timeout honours its argument")
 
 
@@ -345,6 +351,9 @@ def check_C12(ctx):
         oss.rule_oss_samefd(ctx, cfg, F)
         # an aborted message does not make the receive start over in blocking mode: "the receiver does not wait forever"
         recv.rule_followup_blocking(ctx, cfg, F)
+    for cfg, F in ctx.configs(["K1"]):
+        # "no false close": Disconnected is what the platform reported for this call, never a remembered earlier answer (an interrupted message must not close the channel for good)
+        recv.rule_disc_origin(ctx, cfg, F)
     ctx.assume("a dying sender closes both ends of its per-message socketpair (kernel), so the follow-up read returns 0")
 
 
@@ -466,6 +475,10 @@ def check_C02(ctx):
         ctx.rule("SOCK-TYPE").floor("socket_sites[%s]" % cfg, 3, cfg)
         # "delivered": a message sent with more descriptors than the receiver's control buffer holds loses its per-message socket and is never completed
         send.rule_fd_bound(ctx, cfg, F)
+    for cfg, F in ctx.configs(["K1", "K3"]):
+        # "exactly once, whole": a message whose decode runs inside another decode (a Deserialize impl that receives) must leave the outer message's attachments
+        # where they were -- otherwise the outer message is consumed and never delivered
+        tls.rule_tls_restore(ctx, cfg, F)
     for cfg, F in ctx.configs(["K1", "K3"]):
         # through a set (router, async): two live members under one id mix their messages
         rset.rule_set_id(ctx, cfg, F, "unix" if cfg == "K1" else "inprocess")
@@ -662,6 +675,10 @@ def check_C05(ctx):
         ipcl.rule_shm_len(ctx, cfg, F)
         ctx.rule("SHM-LEN").floor("fill_ctors[%s]" % cfg, 2, cfg)
         ipcl.rule_shm_sibling(ctx, cfg, F)
+        if cfg == "K1":
+            # "created from any byte string": creation does not collide with a forked sibling's (named backing only; memfd objects are anonymous)
+            ipcl.rule_shm_name(ctx, cfg, F)
+            ctx.rule("SHM-NAME").floor("named_objects[%s]" % cfg, 1, cfg)
         ctx.rule("SHM-SIBLING").floor("create_shmem[%s]" % cfg, 1, cfg)
         ctx.rule("SHM-SIBLING").floor("store_creations[%s]" % cfg, 1, cfg)
         mem.rule_map_guard(ctx, cfg, F)
@@ -674,6 +691,8 @@ def check_C05(ctx):
             fd.rule_fd_path(ctx, cfg, F, mmodel, "ALLOC-PAIR", "every mmap result is unmapped exactly once or moved into the region type whose Drop unmaps it")
             fd.rule_fd_drop(ctx, cfg, F, mmodel, "ALLOC-DROP", "the region type unmaps (ptr, length) in Drop under a null guard")
     for cfg, F in ctx.configs(["K1", "K3"]):
+        # the regions registered for the message being serialised survive a send made from inside a Serialize impl (and the other way round when decoding)
+        tls.rule_tls_restore(ctx, cfg, F)
         ipcl.rule_shm_sentinel(ctx, cfg, F)
         ctx.rule("SHM-SENTINEL").floor("sentinel_pairs[%s]" % cfg, 1, cfg)
         ipcl.rule_idx_pos(ctx, cfg, F)
@@ -951,3 +970,15 @@ META = {
     "C11": {"technique": _TECH + "path-sensitive descriptor typestate, ownership summaries, Drop/close-on-exec rules",
             "note": "trusted: MIR of nightly == what stable compiles; kernel/libc semantics of close/accept/dup/shm_open; unwind paths excluded; macOS/Windows backends not analysed (no target std installed)"},
 }
+
+
+# --- bindings added after the eighth seed round
+_also("C02", "Also: a decode that runs inside another decode leaves the outer message's attachment tables as it found them (TLS-RESTORE): the outer message is delivered, not consumed and lost.")
+_also("C05", "Also: the region list of the message being serialised survives a send made from inside a Serialize impl (TLS-RESTORE).")
+_also("C10", "Also: the in-process one-shot registry gives up its sender when the server is accepted (OSS-OWN), so a polling receive on the finished channel answers Disconnected, not Empty.")
+_also("C12", "Also: Disconnected is produced from the platform's answer to the present call only (DISC-ORIGIN): an interrupted message cannot close the channel for good.")
+_also("C14", "Also: the descriptor list of a message is created in the call that sends it (FD-BOUND's count starts at Vec::new), so the descriptors of a refused message cannot ride along with the next one.")
+_also("C16", "Also: printing a received message that has not been decoded (`{:?}` on OpaqueIpcMessage) has no panic source either; a str cut at a byte offset is one (DECODE-NOPANIC).")
+_also("C04", "Also: every iteration of the sender's collection loops pushes its descriptor (SPLIT-ORDER), so descriptors and payload indices stay in one-to-one correspondence.")
+_also("C05", "Also: the name of a named backing object contains something that differs between a process and the children it forks within one second (SHM-NAME), so region creation in both does not collide on O_EXCL.")
+
